@@ -125,3 +125,21 @@ def amplitude_bound(cls: str, amplitudes) -> float:
         else:
             tot += abs(a) * math.sqrt((2 * (i + 1) + 1) / (4 * math.pi))
     return tot
+
+
+def min_rel_interface(cls: str, amplitudes, n: int = 720) -> float:
+    """Smallest relative interface distance over a dense set of directions (> 0 means that the
+    body is star-shaped about its centre, i.e. the droplet is a valid shape and its centre lies
+    inside).  Sampling error is bounded by the caller keeping a margin (e.g. demanding >= 0.1)."""
+    a = np.asarray(amplitudes if amplitudes is not None else [], float)
+    if a.size == 0 or not np.any(a):
+        return 1.0
+    if cls == "PerturbedDroplet2D":
+        phi = np.linspace(0, 2 * math.pi, n, endpoint=False)
+        return float(np.min(rel_interface_2d(a, phi)))
+    theta = np.linspace(0, math.pi, 91)
+    if cls == "PerturbedDroplet3DAxisSym":
+        return float(np.min(rel_interface_axisym(a, theta)))
+    phi = np.linspace(0, 2 * math.pi, 180, endpoint=False)
+    T, P = np.meshgrid(theta, phi, indexing="ij")
+    return float(np.min(rel_interface_3d(a, T.ravel(), P.ravel())))
